@@ -112,6 +112,11 @@ class SymInt:
     def w(self):
         return self.t.size()
 
+    @property
+    def value(self):
+        """IntEnum / IntFlag members with a symbolic value are represented by the SymInt itself"""
+        return self
+
     def _bin(self, o, f, lo, hi):
         a, b = self, SymInt.lift(o)
         W = max(fit(lo, hi), a.w, b.w)
